@@ -192,3 +192,133 @@ def l3_run(chk, name, driver="mixed", strings=600, per_string=4, kinds=None, pro
     for ln in lines[:2]:
         chk.sample({"layer": "L3", "trace": name, "event": strip_event(json.loads(ln))})
     return info
+
+
+def session_run(chk, processes=6, threads=8, calls=40):
+    """C16: multi-threaded sessions, one fresh process each; all traces validated together (shared memo)"""
+    oracle = ensure_oracle()
+    tag = "%d-session" % os.getpid()
+    corpus = os.path.join(CACHE, "corpus-%s.ndjson" % tag)
+    write_corpus(corpus)
+    lines = []
+    infos = []
+    for i in range(processes):
+        trace = os.path.join(CACHE, "l3-%s-%d.ndjson" % (tag, i))
+        # the same seed for groups of three processes: the same inputs under different schedules
+        out, _ = run_harness(["session", "--oracle", oracle, "--out", trace, "--seed", str(chk.seed * 100 + i // 3), "--threads", str(threads),
+                              "--calls", str(calls), "--corpus", corpus, "--thread-base", str(i * 100)])
+        infos.append(json.loads(out.strip().splitlines()[-1]))
+        lines += open(trace).read().splitlines()
+        os.remove(trace)
+    os.remove(corpus)
+    batches = []
+    for i in range(0, len(lines), BATCH):
+        p = os.path.join(CACHE, "l3-%s-b%d.ndjson" % (tag, i // BATCH))
+        with open(p, "w") as f:
+            f.write("\n".join(lines[i:i + BATCH]) + "\n")
+        batches.append((i, p))
+    try:
+        with ThreadPoolExecutor(max_workers=4) as ex:
+            results = list(ex.map(lambda b: _validate_batch(b[1]), batches))
+    finally:
+        for _, p in batches:
+            try:
+                os.remove(p)
+            except OSError:
+                pass
+    from props import KF_BIDI
+    states = 0
+    for (base, _), (res, bad) in zip(batches, results):
+        states += res.distinct
+        chk.cov["states"] += res.distinct
+        chk.cov["transitions"] += res.generated
+        for b in bad:
+            e = json.loads(lines[base + b["l"] - 1])
+            if b["j"] == "known:bidi_nsm_strict":
+                chk.known_finding(KF_BIDI)
+            elif b["j"] == "missingfact" and e.get("capped"):
+                continue
+            elif b["j"] in ("missingfact", "order"):
+                tool_error("session trace: %s" % b["j"])
+            else:
+                what = "the same call returned different results across threads / forms / histories" if b["j"] == "memo" else \
+                    "result of a concurrent call is not explained by the specification"
+                chk.violation("session: %s: %s" % (what, json.dumps(strip_event(e), sort_keys=True)[:700]),
+                              {"layer": "L3-session", "judgement": b["j"], "event": strip_event(e)})
+    # cross-batch memo: equal calls must have equal results over the whole run
+    memo = {}
+    for ln in lines:
+        e = json.loads(ln)
+        k = json.dumps([e["profile"], e["op"], e["args"]])
+        r = json.dumps(e["res"], sort_keys=True)
+        if k in memo and memo[k] != r:
+            chk.violation("session: the same call returned different results: %s" % k[:300], {"layer": "L3-session", "judgement": "memo", "call": json.loads(k),
+                                                                                               "results": [json.loads(memo[k]), e["res"]]})
+            break
+        memo[k] = r
+    n_ev = sum(i["events"] for i in infos)
+    chk.cov["traces_validated_against_impl"] += processes
+    chk.cov["evaluations"] += n_ev
+    chk.cov["distinct_nontrivial"] += len(memo)
+    chk.add_part("L3:sessions", {"processes": processes, "threads": threads, "events": n_ev, "distinct_calls": len(memo), "tlc_states": states,
+                                 "first_static_profiles": sorted(set(i["first_static"] for i in infos))})
+    if lines:
+        chk.sample({"layer": "L3-session", "event": strip_event(json.loads(lines[0]))})
+
+
+def _validate_csv_batch(path):
+    res = run_tlc("Trace_Csv", modules_dir="trace", env={"TRACE": path}, workers=1, timeout=1500, heap="3g")
+    if res.error or res.rc != 0:
+        print(res.out[-3000:])
+        tool_error("TLC failed on a CSV trace batch: %s" % res.error)
+    bad = None
+    for tag, payload in res.printed:
+        if tag == "BAD":
+            bad = json.loads(payload)
+    if bad is None:
+        tool_error("CSV batch not fully consumed")
+    return res, bad
+
+
+def csv_trace_run(chk, rows=20000):
+    tag = "%d-csv" % os.getpid()
+    trace = os.path.join(CACHE, "csv-%s.ndjson" % tag)
+    out, t = run_harness(["csvfuzz", "--seed", str(chk.seed), "--rows", str(rows), "--out", trace,
+                          "--registry", os.path.join(VERIF, "data", "csv", "precis-tables-6.3.0.csv")])
+    summary = json.loads(out.strip().splitlines()[-1])["summary"]
+    lines = open(trace).read().splitlines()
+    os.remove(trace)
+    B = 10000
+    batches = []
+    for i in range(0, len(lines), B):
+        p = os.path.join(CACHE, "csv-%s-b%d.ndjson" % (tag, i // B))
+        with open(p, "w") as f:
+            f.write("\n".join(lines[i:i + B]) + "\n")
+        batches.append((i, p))
+    try:
+        with ThreadPoolExecutor(max_workers=4) as ex:
+            results = list(ex.map(lambda b: _validate_csv_batch(b[1]), batches))
+    finally:
+        for _, p in batches:
+            try:
+                os.remove(p)
+            except OSError:
+                pass
+    n_bad = 0
+    for (base, _), (res, bad) in zip(batches, results):
+        chk.cov["states"] += res.distinct
+        chk.cov["transitions"] += res.generated
+        for l in bad:
+            e = json.loads(lines[base + l - 1])
+            n_bad += 1
+            chk.violation("CSV row not read back as written / corruption accepted / panic: %s" % json.dumps(e, sort_keys=True)[:600],
+                          {"layer": "L3-csv", "event": e})
+    reg = summary["registry"]
+    if reg.get("checked") and reg.get("diffs"):
+        chk.violation("the shipped registry file is not read back as written: %s" % json.dumps(reg)[:500], {"layer": "L3-csv", "registry": reg})
+    chk.cov["traces_validated_against_impl"] += len(batches)
+    chk.cov["evaluations"] += summary["rows"]
+    chk.cov["distinct_nontrivial"] += summary["corrupted"]
+    chk.add_part("L3:csv rows", dict(summary, unexplained=n_bad, wall_s=round(t, 1)))
+    for ln in lines[:2]:
+        chk.sample({"layer": "L3-csv", "event": json.loads(ln)})
